@@ -4,6 +4,7 @@ import (
 	"bytes"
 	"fmt"
 	"math/big"
+	"time"
 
 	clptypes "github.com/Sifchain/sifnode/x/clp/types"
 
@@ -24,7 +25,12 @@ func reexec(rep *report.Report, c *chain.Chain, n int, kind string, replay inter
 		c.Commit()
 	}
 	ops := c.Ops
+	saved := time.Local
+	defer func() { time.Local = saved }()
 	for run := 0; run < n; run++ {
+		// every re-execution runs as a node in another local time zone would (the first recorded run used the machine's own):
+		// what is committed must not depend on the process environment
+		time.Local = time.FixedZone(fmt.Sprintf("zone%d", run), []int{3600, -5 * 3600, 9 * 3600, 0, 5*3600 + 1800}[run%5])
 		got := chain.Replay(c.GenesisBytes, c.T0, ops)
 		for i, o := range ops {
 			g := got[i]
